@@ -405,12 +405,11 @@ def run_all(ctx, quick):
             steps = sorted({short(x) for x in all_steps(shape)})
             for j in (1, 2, 3, 4):
                 heavy = shape in ('fanout', 'tworoots', 'deep') and j >= 3
-                jobs.append((shape, j, False, None, 0 if heavy or shape == 'fanout' else 1, 12000))
+                jobs.append((shape, j, False, None, 0 if heavy or shape == 'fanout' else 1, 6000))
             for f in steps:
                 for kg in (False, True):
-                    for j in (1, 2, 3):
-                        if shape in ('fanout', 'tworoots', 'deep', 'fan3') and j == 3: continue
-                        jobs.append((shape, j, kg, f, 0, 4000))
+                    for j in (1, 2):
+                        jobs.append((shape, j, kg, f, 0, 1500))
     only = ctx.opts.get('shape')
     if only: jobs = [j for j in jobs if j[0] in only.split(',')]
     execs = iters = nout = 0
